@@ -52,6 +52,7 @@ func (w *Workers) Call(count int, value func() (interface{}, error)) (interface{
 		w.count++
 		go w.worker()
 	}
+	verifPoint("workers.call", w, w.count)
 	w.mutex.Unlock()
 	result := <-output
 	return result.result, result.error
@@ -75,6 +76,7 @@ func (w *Workers) Wait() {
 	for w.count != 0 {
 		w.cond.Wait()
 	}
+	verifPoint("workers.wait", w, w.count)
 }
 
 // Count will return the number of workers currently running
@@ -105,6 +107,7 @@ func (w *Workers) worker() {
 		w.mutex.Lock()
 		if len(w.queue) == 0 || w.count > w.target {
 			w.count--
+			verifPoint("workers.exit", w, w.count)
 			if w.count == 0 {
 				w.cond.Broadcast()
 			}
@@ -114,6 +117,7 @@ func (w *Workers) worker() {
 		item := w.queue[0]
 		w.queue[0] = nil
 		w.queue = w.queue[1:]
+		verifPoint("workers.take", w, len(w.queue))
 		w.mutex.Unlock()
 		func() {
 			defer close(item.output)
